@@ -78,8 +78,8 @@ def patched(patches):
 def sym_outcome(fn, *a):
     try:
         return ('ok', fn(*a))
-    except MustRaise:
-        return ('reject',)
+    except MustRaise as e:
+        return ('reject',) + tuple(e.args[:1])
     except NoClaim:
         return ('noclaim',)
     except Leak:
@@ -134,6 +134,8 @@ def agree_node(io, so):
     if so[0] == 'noclaim':
         return ir.const(1, 1)
     if so[0] == 'reject':
+        if len(so) > 1:
+            return ir.const(1, 1 if (io[0] == 'exc' and io[1] == so[1]) else 0)
         return ir.const(1, 1 if io[0] == 'exc' else 0)
     if so[0] == 'exc':
         return None
@@ -193,18 +195,66 @@ def observable(io, so):
     return 'mismatch'
 
 
-def checked(s, timeout_ms):
-    "Solver.check() with a watchdog: z3's own timeout is not honoured inside some preprocessing steps"
-    import threading
-    t = threading.Timer(timeout_ms / 1000.0 + 5, lambda: s.ctx.interrupt())
-    t.daemon = True
-    t.start()
+def checked(s, timeout_ms, vars_=(), size=0):
+    """Solver.check().  Returns (status, env or None).  z3's own timeout is not honoured inside some preprocessing steps
+    on very large terms, so large queries run in a forked child that the parent can kill (threads are not an option:
+    z3's python wrappers are not thread safe)."""
+    if size < FORK_THRESHOLD:
+        try:
+            r = str(s.check())
+        except z3.Z3Exception:
+            return 'unknown', None
+        return r, (model_env(s.model(), vars_) if r == 'sat' else None)
+    import select
+    rd, wr = os.pipe()
+    pid = os.fork()
+    if pid == 0:
+        try:
+            os.close(rd)
+            signal.setitimer(signal.ITIMER_REAL, 0)
+            try:
+                r = str(s.check())
+                env = model_env(s.model(), vars_) if r == 'sat' else None
+            except BaseException:
+                r, env = 'unknown', None
+            os.write(wr, json.dumps([r, env]).encode())
+        finally:
+            os._exit(0)
+    os.close(wr)
+    buf = b''
+    deadline = time.time() + timeout_ms / 1000.0 + 10
     try:
-        return str(s.check())
-    except z3.Z3Exception:
-        return 'unknown'
+        while True:
+            left = deadline - time.time()
+            if left <= 0:
+                break
+            ready, _, _ = select.select([rd], [], [], left)
+            if not ready:
+                break
+            chunk = os.read(rd, 1 << 16)
+            if not chunk:
+                break
+            buf += chunk
     finally:
-        t.cancel()
+        os.close(rd)
+        try:
+            os.kill(pid, signal.SIGKILL)
+        except OSError:
+            pass
+        try:
+            os.waitpid(pid, 0)
+        except OSError:
+            pass
+    if not buf:
+        return 'unknown', None
+    try:
+        r, env = json.loads(buf.decode())
+    except ValueError:
+        return 'unknown', None
+    return r, env
+
+
+FORK_THRESHOLD = 4000
 
 
 # ---- one shape ------------------------------------------------------------------------------------------
@@ -275,15 +325,16 @@ def run_shape(case, shape, tier, seed):
             for c in p.pc:
                 s.add(ir.lower_bool(c))
             # reachability twin: the path condition itself must be satisfiable (else the obligation is vacuous)
+            gsize = len(ir.reachable([goal] + list(p.pc)))
             if p.pc:
-                rr = checked(s, case.solver_timeout_ms)
+                rr, _ = checked(s, case.solver_timeout_ms, (), gsize)
                 res['queries'] += 1
                 if rr != 'sat':
                     res['status'] = 'inconclusive'
                     res['reason'] = 'vacuous: path condition %s' % rr
                     continue
             tq = time.time()
-            model = None
+            menv = None
             r = None
             # cheap refutation first: evaluate the goal under a few assignments (a concrete, replayed counterexample is a
             # definitive refutation; only the solver's unsat can discharge the obligation)
@@ -302,9 +353,8 @@ def run_shape(case, shape, tier, seed):
             else:
                 s.push()
                 s.add(z3.Not(ir.lower_bool(goal)))
-                r = checked(s, case.solver_timeout_ms)
+                r, menv = checked(s, case.solver_timeout_ms, src.vars, gsize)
                 res['queries'] += 1
-                model = s.model() if r == 'sat' else None
                 s.pop()
             dt = time.time() - tq
             res['solver_s'] += dt
@@ -327,8 +377,8 @@ def run_shape(case, shape, tier, seed):
             cands = []
             if pre_env is not None:
                 cands.append(pre_env)
-            if model is not None:
-                cands.append(model_env(model, src.vars))
+            if menv is not None:
+                cands.append(menv)
             found = None
             for env in cands:
                 ok, cio, cso, used = concrete_check(case, shape, env=env)
@@ -427,6 +477,90 @@ def _job(a):
                     validations=[], samples=[], queries=0, wall_s=0, kind='?', prop=_CASES[name].prop)
 
 
+def _worker(tasks, out):
+    import gc
+    while True:
+        t = tasks.get()
+        if t is None:
+            break
+        idx, w = t
+        out.put(('start', idx, os.getpid(), time.time()))
+        r = _job(w)
+        out.put(('done', idx, os.getpid(), r))
+        ir.reset()
+        gc.collect()
+
+
+def hard_limit(w):
+    c = _CASES[w[0]]
+    return (c.timeout_s * (4 if w[2] == 'thorough' else 1)) * 1.5 + 120
+
+
+def run_pool(work, nproc, verbose=False):
+    """own process pool: a job that overruns its hard limit (z3 not returning) gets its worker killed and is
+    reported inconclusive - never a silent pass, never a hang"""
+    import queue
+    ctx = multiprocessing.get_context('fork')
+    tasks, out = ctx.Queue(), ctx.Queue()
+    for i, w in enumerate(work):
+        tasks.put((i, w))
+    procs = {}
+
+    def spawn():
+        p = ctx.Process(target=_worker, args=(tasks, out), daemon=True)
+        p.start()
+        procs[p.pid] = p
+    for _ in range(min(nproc, len(work))):
+        spawn()
+    running = {}
+    results = {}
+    while len(results) < len(work):
+        try:
+            m = out.get(timeout=1.0)
+        except queue.Empty:
+            m = None
+        if m is not None:
+            if m[0] == 'start':
+                running[m[2]] = (m[1], m[3])
+            else:
+                running.pop(m[2], None)
+                results[m[1]] = m[3]
+                if verbose:
+                    r = m[3]
+                    print('  [%s] %s %s %.1fs %s' % (r['status'], r['case'], json.dumps(r['shape'], sort_keys=True), r.get('wall_s', 0), r.get('reason') or ''), flush=True)
+        now = time.time()
+        for pid, (idx, t0) in list(running.items()):
+            if idx in results:
+                running.pop(pid, None)
+                continue
+            if now - t0 > hard_limit(work[idx]) or not procs[pid].is_alive():
+                why = 'worker exceeded the hard limit of %ds and was killed' % hard_limit(work[idx]) if procs[pid].is_alive() else 'worker died'
+                try:
+                    os.kill(pid, signal.SIGKILL)
+                except OSError:
+                    pass
+                procs[pid].join(5)
+                procs.pop(pid, None)
+                running.pop(pid, None)
+                w = work[idx]
+                results[idx] = dict(case=w[0], shape=w[1], status='inconclusive', reason=why, obligations=0, discharged=0, identical=0,
+                                    paths=0, forks=0, branch_checks=0, solver_s=0.0, nvars=0, candidates=[], validations=[], samples=[],
+                                    queries=0, wall_s=round(now - t0, 1), kind='?', prop=_CASES[w[0]].prop)
+                if verbose:
+                    print('  [killed] %s %s' % (w[0], json.dumps(w[1], sort_keys=True)), flush=True)
+                spawn()
+        # a worker may die between jobs (e.g. z3 abort): keep the pool populated
+        if len(results) < len(work) and not any(p.is_alive() for p in procs.values()):
+            spawn()
+    for _ in procs:
+        tasks.put(None)
+    for p in procs.values():
+        p.join(2)
+        if p.is_alive():
+            p.kill()
+    return [results[i] for i in range(len(work))]
+
+
 def known_findings():
     p = os.path.join(VERIF, 'known_findings.json')
     if not os.path.exists(p):
@@ -486,12 +620,7 @@ def run_check(prop, tier, only=None, jobs=None, verbose=False):
         for w in work:
             results.append(_job(w))
     else:
-        ctx = multiprocessing.get_context('fork')
-        with ctx.Pool(nproc, maxtasksperchild=20) as pool:
-            for r in pool.imap_unordered(_job, work, chunksize=1):
-                results.append(r)
-                if verbose:
-                    print('  [%s] %s %s %.1fs %s' % (r['status'], r['case'], json.dumps(r['shape'], sort_keys=True), r.get('wall_s', 0), r.get('reason') or ''), flush=True)
+        results = run_pool(work, nproc, verbose)
     results.sort(key=lambda r: (r['case'], json.dumps(r['shape'], sort_keys=True)))
     return finish(prop, tier, seed, results, t0)
 
